@@ -144,6 +144,21 @@ def gen_cases(rng, tier: str) -> list[dict]:
             r1, r2 = respell(e, rng), respell(e, rng)
         cases.append({"origin": origin.split(":")[0], "a": wire.expr(e), "b": wire.expr(r1), "c": wire.expr(r2),
                       "m": wire.expr(m), "mkind": kind})
+    # a node whose operands are one and the same object, against the same node with only one side changed (a comparison
+    # that takes a shortcut when `left is right` must still look at the other side of the other node)
+    g = gen.Gen(rng, names=("x", "y"))
+    for _ in range(common.sizes(tier, 12, 120)):
+        s_ = g.expr(rng.choice([0, 1, 2]))
+        kind, t = mutate(s_, rng)
+        if wire.expr(t) == wire.expr(s_):
+            t = X.Add(s_, X.Constant(1))
+        for K in (X.Minus, X.Divide, X.Power, X.Add, X.Multiply):
+            a = K(s_, s_)
+            for m, side in ((K(s_, t), "right"), (K(t, s_), "left"), (K(t, t), "both")):
+                wrap = rng.random() < 0.3
+                aa, mm = (X.Sine(a), X.Sine(m)) if wrap else (a, m)
+                cases.append({"origin": "shared-operands", "a": wire.expr(aa), "b": wire.expr(respell(aa, rng)), "c": wire.expr(respell(aa, rng)),
+                              "m": wire.expr(mm), "mkind": "shared-operand-" + side})
     return cases
 
 
